@@ -357,6 +357,9 @@ def h_eccpub(env, c):
     env.prove(env.And(env.bytes_eq(raw[:cl], xb), env.bytes_eq(raw[cl:], yb)), "ecc.raw_key_is_x_then_y")
     back = KEYS.PublicKeyEcc.parse(raw)
     env.prove(env.And(back.x == x, back.y == y) and back.curve == pub.curve, "ecc.raw_key_round_trip")
+    auto = KEYS.PublicKey.parse(raw)
+    env.prove(isinstance(auto, KEYS.PublicKeyEcc) and env.is_true(env.And(auto.x == x, auto.y == y)) and auto.curve == pub.curve,
+              "ecc.auto_detecting_parse_same_key")
     env.prove(back.coordinate_size == cl and back.signature_size == 2 * cl, "ecc.sizes")
 
 
@@ -375,6 +378,14 @@ def h_rsapub(env, c):
     env.prove(len(raw) in (bits // 8 + 3, bits // 8 + 4), "rsa.raw_key_length")
     nums = KEYS.PublicKeyRsa.recreate_public_numbers(raw)
     env.prove(env.And(nums.n == n, nums.e == e), "rsa.raw_key_round_trip")
+    # the auto-detecting entry point arrives at the same key (ECC raw / DER lengths do not collide with RSA raw lengths)
+    auto = KEYS.PublicKey.parse(raw)
+    env.prove(isinstance(auto, KEYS.PublicKeyRsa) and env.is_true(env.And(auto.n == n, auto.e == e)), "rsa.auto_detecting_parse_same_key")
+    # explicit field widths: modulus and exponent right-aligned in the requested widths
+    wide = pub.export(enc("NXP"), exp_length=4, modulus_length=bits // 8 + 4)
+    env.prove(len(wide) == bits // 8 + 8, "rsa.raw_key_explicit_widths_length")
+    env.prove(env.And(env.from_bytes(wide[: bits // 8 + 4], "big") == n, env.from_bytes(wide[bits // 8 + 4:], "big") == e),
+              "rsa.raw_key_explicit_widths_values")
 
 
 def cases(tier):
